@@ -12,7 +12,7 @@ git apply "$patch" || { echo "patch does not apply"; exit 2; }
 export GOFLAGS=-mod=mod GOPROXY=off GOSUMDB=off GOTOOLCHAIN=local
 go build ./... || { echo "does not build"; exit 2; }
 for c in "$@"; do
-  out=$(cd /verif && VERIF_EVIDENCE_DIR=/tmp/mast-mutant-evidence VERIF_REPO="$repo" timeout 1500 ./check $c --tier ${TIER:-quick} --seed ${SEED:-1} 2>&1); rc=$?
+  out=$(cd ${VERIF_DIR:-/verif} && VERIF_EVIDENCE_DIR=/tmp/mast-mutant-evidence VERIF_REPO="$repo" timeout 1500 ./check $c --tier ${TIER:-quick} --seed ${SEED:-1} 2>&1); rc=$?
   case $rc in 1) r=CAUGHT;; 0) r=MISSED;; *) r="UNDECIDED($rc)";; esac
   echo "$c $r  $(echo "$out" | grep -A1 '^VIOLATION' | sed -n 2p | cut -c1-160)"
   [ $rc -ge 2 ] && echo "$out" | tail -5
